@@ -317,28 +317,40 @@ class Effects:
                             return parent, ('vfield', recv, 'Err', 0)
         return None
 
-    def in_parent(self, cb, t, depth=0):
+    def in_parent(self, cb, t, depth=0, tag_own=False):
         """a closure-body term in the term space of the function that defines the closure: captures are replaced by what was
         captured, the closure's own argument by what the combinator feeds it (Ok/Some payload for map/and_then, Err payload for
-        map_err). Returns (parent_body, term); unchanged when `cb` is not a closure."""
+        map_err). With `tag_own`, arguments that are not fed by a known combinator are written as a symbol `<closure-arg i>` so
+        that they cannot be confused with the defining function's parameters. Returns (parent_body, term); unchanged when `cb`
+        is not a closure."""
         if cb.kind != "Closure" or depth > 3:
             return cb, t
-        pb, lt = self.lift(cb, t)
-        if pb is cb:
+        if self.closure_env(cb) is None:
             return cb, t
-        fed = self.closure_arg_source(cb, 2)
-        if fed is not None:
-            arg = fed[1]
-            nm = cb.local_name(2)
+        own = {}
 
-            def rep(x):
-                if isinstance(x, tuple) and x and x[0] == 'param' and x[1] == 2 and (len(x) < 3 or x[2] == nm):
-                    return arg
-                if isinstance(x, tuple) and x and x[0] not in LEAF_TAGS:
-                    return map_children(x, rep)
-                return x
-            lt = rep(lt)
-        return self.in_parent(pb, lt, depth + 1) if pb.kind == "Closure" else (pb, lt)
+        def tag(x):
+            if isinstance(x, tuple) and x and x[0] == 'param' and isinstance(x[1], int) and x[1] >= 2:
+                ph = ('sym', f"closure-arg{x[1]}")
+                own[ph] = x
+                return ph
+            if isinstance(x, tuple) and x and x[0] not in LEAF_TAGS:
+                return map_children(x, tag)
+            return x
+        t1 = tag(deep_strip(t))
+        pb, lt = self.lift(cb, t1)
+        fed = self.closure_arg_source(cb, 2)
+
+        def untag(x):
+            if isinstance(x, tuple) and x and x[0] == 'sym' and x in own:
+                if fed is not None and own[x][1] == 2:
+                    return fed[1]
+                return x if tag_own else own[x]
+            if isinstance(x, tuple) and x and x[0] not in LEAF_TAGS:
+                return map_children(x, untag)
+            return x
+        lt = untag(lt)
+        return self.in_parent(pb, lt, depth + 1, tag_own) if pb.kind == "Closure" else (pb, lt)
 
 
 def write_sites(prog, eff):
